@@ -474,3 +474,161 @@ Theorem C02_prim_rows : prim_rows_ok = true /\
 Proof. exact (conj prim_rows_consistent prim_spec_by_flags). Qed.
 Print Assumptions C02_prim_rows.
 
+
+(** ** Round 4: the loop kernels of division REGENERATED from the source (coq/gen/DivKernelsGen.v, tools/translate_c02_r4.py on top
+    of the loop translator of C01) are the hand models, for every word size and every instance P of the primitives; the helpers of
+    div_ops.rs::repr regenerated (coq/gen/DivReprGen.v); ConstDivisor construction; debug assertions without side effects. *)
+From Dashu Require Import Int.DivContracts Int.DivKernelsBase Int.DivKernelsGenProofs Int.DivReprGenProofs Int.DivConstNew Int.DivConstNewProofs
+  Int.DivKernelsInst Int.DivKernelsGenSpec Int.DivAsserts.
+From DashuGen Require Import DivKernelsGen DivReprGen DivAssertsGen.
+
+Theorem C02_gen_fast_div_by_word : forall (w : Z) (P : div_prims) (ws : list Z) (s d : Z), 0 <= s ->
+  fast_div_by_word_in_place_gen P w ws s d = fast_div_by_word w (p2by1 P) ws s d.
+Proof. exact fast_div_by_word_gen_eq. Qed.
+Print Assumptions C02_gen_fast_div_by_word.
+
+Theorem C02_gen_div_by_word : forall (w : Z) (P : div_prims) (ws : list Z) (rhs : Z), 0 < rhs < B w ->
+  div_by_word_in_place_gen P w ws rhs = div_by_word w (p2by1 P) ws rhs.
+Proof. exact div_by_word_gen_eq. Qed.
+Print Assumptions C02_gen_div_by_word.
+
+Theorem C02_gen_fast_rem_word : forall (w : Z) (P : div_prims) (ws : list Z) (d : Z), (1 <= length ws)%nat ->
+  fast_rem_by_normalized_word_gen P w ws d = rem_word_loop w (p1by1 P) (p2by1 P) d ws.
+Proof. exact fast_rem_by_normalized_word_gen_eq. Qed.
+Print Assumptions C02_gen_fast_rem_word.
+
+Theorem C02_gen_rem_by_word : forall (w : Z) (P : div_prims) (ws : list Z) (rhs : Z), (1 <= length ws)%nat -> 0 < rhs < B w ->
+  rem_by_word_gen P w ws rhs = rem_by_word w (p1by1 P) (p2by1 P) ws rhs.
+Proof. exact rem_by_word_gen_eq. Qed.
+Print Assumptions C02_gen_rem_by_word.
+
+Theorem C02_gen_fast_div_by_dword : forall (w : Z) (P : div_prims) (ws : list Z) (s d : Z), 0 <= s ->
+  fast_div_by_dword_in_place_gen P w ws s d = fast_div_by_dword w (p3by2 P) (p4by2 P) ws s d.
+Proof. exact fast_div_by_dword_gen_eq. Qed.
+Print Assumptions C02_gen_fast_div_by_dword.
+
+Theorem C02_gen_div_by_dword : forall w : Z, 0 < w -> forall (P : div_prims) (ws : list Z) (rhs : Z),
+  wf w ws -> (1 <= length ws)%nat -> B w <= rhs < B w * B w ->
+  div_by_dword_in_place_gen P w ws rhs = div_by_dword w (p3by2 P) (p4by2 P) ws rhs.
+Proof. exact div_by_dword_gen_eq. Qed.
+Print Assumptions C02_gen_div_by_dword.
+
+Theorem C02_gen_fast_rem_dword : forall (w : Z) (P : div_prims) (ws : list Z) (d : Z), (2 <= length ws)%nat ->
+  fast_rem_by_normalized_dword_gen P w ws d = rem_dword_loop w (p2by2 P) (p3by2 P) (p4by2 P) d ws.
+Proof. exact fast_rem_by_normalized_dword_gen_eq. Qed.
+Print Assumptions C02_gen_fast_rem_dword.
+
+Theorem C02_gen_rem_by_dword : forall w : Z, 0 < w -> forall (P : div_prims) (ws : list Z) (rhs : Z),
+  (2 <= length ws)%nat -> 0 < rhs < B w * B w ->
+  rem_by_dword_gen P w ws rhs = rem_by_dword w (p2by2 P) (p3by2 P) (p4by2 P) ws rhs.
+Proof. exact rem_by_dword_gen_eq. Qed.
+Print Assumptions C02_gen_rem_by_dword.
+
+Theorem C02_gen_normalize : forall (w : Z) (P : div_prims) (ws : list Z),
+  normalize_gen P w ws =
+  (let s := lzw w 1 (highest_word w ws) in let ws1 := fst (shl_in_place w ws s) in (ws1, (s, highest_dword w ws1))).
+Proof. exact normalize_gen_eq. Qed.
+Print Assumptions C02_gen_normalize.
+
+Theorem C02_gen_div_rem_highest_word : forall (w : Z) (P : div_prims) (top : Z) (lo rhs : list Z) (d : Z),
+  rhs <> [] -> d = highest_dword w rhs ->
+  div_rem_highest_word_gen P w top lo rhs d = (let '(q, lo') := div_rem_highest_word w (p3by2 P) top lo rhs in (lo', q)).
+Proof. exact div_rem_highest_word_gen_eq. Qed.
+Print Assumptions C02_gen_div_rem_highest_word.
+
+Theorem C02_gen_simple_div_rem : forall (w : Z) (P : div_prims) (lhs rhs : list Z) (d : Z),
+  rhs <> [] -> (length rhs <= length lhs)%nat -> d = highest_dword w rhs ->
+  simple_div_rem_in_place_gen P w lhs rhs d = simple_div_rem w (p3by2 P) lhs rhs.
+Proof. exact simple_div_rem_in_place_gen_eq. Qed.
+Print Assumptions C02_gen_simple_div_rem.
+
+Theorem C02_gen_div_rem_in_place : forall (w : Z) (P : div_prims) (lhs rhs : list Z) (d : Z),
+  rhs <> [] -> (length rhs <= length lhs)%nat -> d = highest_dword w rhs ->
+  div_rem_in_place_gen P w lhs rhs d =
+  unwrap_dr lhs (div_rem_in_place w (p3by2 P) (pmul_sub P) div_threshold_simple_nat (fuel_for lhs) lhs rhs).
+Proof. exact div_rem_in_place_gen_eq. Qed.
+Print Assumptions C02_gen_div_rem_in_place.
+
+Theorem C02_gen_div_rem_unshifted : forall (w : Z) (P : div_prims) (lhs rhs : list Z) (s d : Z) (r : list Z * Z),
+  rhs <> [] -> (length rhs <= length lhs)%nat -> d = highest_dword w rhs ->
+  div_rem_unshifted w (p3by2 P) (pmul_sub P) div_threshold_simple_nat (fuel_for lhs) lhs rhs s = Ok r ->
+  div_rem_unshifted_in_place_gen P w lhs rhs s d = r.
+Proof. exact div_rem_unshifted_gen_eq. Qed.
+Print Assumptions C02_gen_div_rem_unshifted.
+
+Theorem C02_gen_dc_tail_is_the_models : forall (w : Z) (P : div_prims) (T f : nat) (lhs rhs : list Z),
+  dc_small_quotient w (p3by2 P) (pmul_sub P) T (S f) lhs rhs =
+  (let n := length rhs in let m := (length lhs - n)%nat in
+   if (m <=? T)%nat then Ok (simple_div_rem w (p3by2 P) lhs rhs)
+   else
+     let l := skipn (n - m) lhs in let r := skipn (n - m) rhs in let nlo := (m / 2)%nat in
+     rbind (dc_small_quotient w (p3by2 P) (pmul_sub P) T f (skipn nlo l) r) (fun '(hi, o) =>
+     let l1 := firstn nlo l ++ hi in
+     rbind (dc_small_quotient w (p3by2 P) (pmul_sub P) T f (firstn (m + nlo) l1) r) (fun '(lo, _) =>
+     dc_tail w P (firstn (n - m) lhs ++ (lo ++ skipn (m + nlo) l1)) rhs n m o))).
+Proof. exact dc_small_quotient_tail_unfold. Qed.
+Print Assumptions C02_gen_dc_tail_is_the_models.
+
+Theorem C02_gen_dc_tail : forall w : Z, 0 < w -> forall (P : div_prims) (lhs1 rhs : list Z) (m : nat) (o : bool) (r : list Z * bool),
+  contract_mul_sub w (pmul_sub P) -> wf w lhs1 -> wf w rhs -> (m <= length rhs)%nat -> length lhs1 = (length rhs + m)%nat ->
+  dc_tail w P lhs1 rhs (length rhs) m o = Ok r ->
+  dc_small_quotient_tail_gen P w lhs1 rhs (length rhs) m (Z.b2z o) = r.
+Proof. exact dc_small_quotient_tail_gen_eq. Qed.
+Print Assumptions C02_gen_dc_tail.
+
+Theorem C02_gen_div_rem_in_lhs : forall (w : Z) (P : div_prims) (lhs rhs : list Z) (r : list Z * list Z * Z),
+  rhs <> [] -> (length rhs <= length lhs)%nat ->
+  div_rem_in_lhs w (p3by2 P) (pmul_sub P) div_threshold_simple_nat (fuel_for lhs) lhs rhs = Ok r ->
+  div_rem_in_lhs_gen P w lhs rhs = r.
+Proof. exact div_rem_in_lhs_gen_eq. Qed.
+Print Assumptions C02_gen_div_rem_in_lhs.
+
+Theorem C02_gen_div_rem_large : forall (w : Z) (P : div_prims) (lhs rhs : list Z) (r : trepr * trepr),
+  rhs <> [] -> (length rhs <= length lhs)%nat ->
+  t_div_rem_large w (p3by2 P) (pmul_sub P) div_threshold_simple_nat lhs rhs = Ok r -> div_rem_large_gen P w lhs rhs = r.
+Proof. exact div_rem_large_gen_eq. Qed.
+Print Assumptions C02_gen_div_rem_large.
+
+Theorem C02_gen_div_large : forall (w : Z) (P : div_prims) (lhs rhs : list Z) (r : trepr),
+  rhs <> [] -> (length rhs <= length lhs)%nat ->
+  t_div_large w (p3by2 P) (pmul_sub P) div_threshold_simple_nat lhs rhs = Ok r -> div_large_gen P w lhs rhs = r.
+Proof. exact div_large_gen_eq. Qed.
+Print Assumptions C02_gen_div_large.
+
+Theorem C02_gen_rem_large : forall (w : Z) (P : div_prims) (lhs rhs : list Z) (r : trepr),
+  rhs <> [] -> (length rhs <= length lhs)%nat ->
+  t_rem_large w (p3by2 P) (pmul_sub P) div_threshold_simple_nat lhs rhs = Ok r -> rem_large_gen P w lhs rhs = r.
+Proof. exact rem_large_gen_eq. Qed.
+Print Assumptions C02_gen_rem_large.
+
+(** the entry points built only from regenerated code (transcribed num-modular, C01's multiplication) = floor division, w >= 8 *)
+Theorem C02_gen_small_divisor_correct : forall w : Z, 8 <= w -> forall a b : Z, B w * B w <= a -> 0 < b < B w * B w ->
+  g_div_rem_small w a b = (a / b, a mod b) /\ g_rem_small w a b = a mod b.
+Proof. exact (fun w Hw a b Ha Hb => conj (g_div_rem_small_correct w Hw a b Ha Hb) (g_rem_small_correct w Hw a b Ha Hb)). Qed.
+Print Assumptions C02_gen_small_divisor_correct.
+
+Theorem C02_gen_large_divisor_correct : forall w : Z, 8 <= w -> forall a b : Z, B w * B w <= b -> (nwords w b <= nwords w a)%nat ->
+  g_div_rem_large w a b = (a / b, a mod b) /\ g_div_large w a b = a / b /\ g_rem_large w a b = a mod b.
+Proof. exact g_large_correct. Qed.
+Print Assumptions C02_gen_large_divisor_correct.
+
+(** ConstDivisor construction: zero panics; shift, normalised divisor, reciprocal, value() for all three sizes *)
+Theorem C02_const_new_zero : forall (w : Z) (P : div_prims),
+  const_new w P 0 = Panic DivideBy0 /\ const_from_word w 0 = Panic DivideBy0 /\ const_from_dword w 0 = Panic DivideBy0.
+Proof. exact const_new_zero. Qed.
+Print Assumptions C02_const_new_zero.
+
+Theorem C02_const_new : forall w : Z, 0 < w -> forall (P : div_prims) (n : Z), 0 < n ->
+  exists c : cdiv, const_new w P n = Ok c /\ cdiv_ok w n c /\ const_value w c = n.
+Proof. exact const_new_ok. Qed.
+Print Assumptions C02_const_new.
+
+Theorem C02_const_from_agree : forall w : Z, 0 < w -> forall (P : div_prims) (n : Z),
+  (0 < n < B w -> const_from_word w n = const_new w P n) /\ (0 < n < B w * B w -> const_from_dword w n = const_new w P n).
+Proof. exact const_from_agree. Qed.
+Print Assumptions C02_const_from_agree.
+
+(** every debug assertion of div / div_const / div_ops / mul whose argument has side effects is the always-evaluating macro *)
+Theorem C02_debug_asserts_keep_side_effects : forallb assert_row_ok debug_asserts_gen = true.
+Proof. exact div_asserts_no_lost_side_effect. Qed.
+Print Assumptions C02_debug_asserts_keep_side_effects.
